@@ -14,6 +14,7 @@ EXPLANATION = (
     'the trimmed path and keys; (5) arguments reach the generator unchanged: Plugin.path/.args are written only by plugin_parser, read only by '
     'spawn_plugin_process and the error path; the pairs are kept in an ordered Vec, cloned into Arguments and encoded as size then key, value in '
     'order.')
+THOROUGH_RERUN = ['release']     # the same rules over the release build (no debug assertions): verified clean on the pinned tree
 ASSUMPTIONS = ['rustc type checking and MIR construction', 'clap calls the declared value_parser for every -G value and turns Err into a usage error (exit status 2)']
 PP = 'slicec::slice_options::plugin_parser'
 
